@@ -162,6 +162,11 @@ def body_decode(ctx, case):
         ctx.check(boh.best_hyp() == want[n], "standalone_greedy_not_collapse_of_argmax",
                   lambda: "C=%d path=%r got %r want %r" % (C, p, boh.best_hyp(), want[n]))
         ctx.check(boh.best_hyp() == got[n], "decoders_disagree", lambda: "path=%r %r vs %r" % (p, boh.best_hyp(), got[n]))
+        if n == 0 and C <= 16:
+            # the documented symbol_separator option only changes how the symbols are joined
+            sep = ctx.must("greedy_decoder_raises", GreedyDecoder(tab[:C - 1] + [BLANK_SYMBOL], symbol_separator="|"), lp).best_hyp()
+            want_sep = "|".join(tab[c] for k, c in enumerate(p) if c != blank and (k == 0 or p[k - 1] != c))
+            ctx.check(sep == want_sep, "standalone_greedy_not_collapse_of_argmax", lambda: "with symbol_separator: got %r want %r; path=%r" % (sep, want_sep, p))
     classify(ctx, paths, blank, "decode")
 
 
